@@ -130,7 +130,7 @@ var rsFragment = []rsPat{
 var rsFrozenText = map[string]bool{"unescapeRefString": true, "isSingleRefElement": true}
 var rsFrozenHash = map[string]bool{"resolveComponent": true, "drillIntoField": true, "resolveRefAndDocument": true, "resolveRef": true,
 	"resolveRefPath": true, "resolvePathWithRef": true, "resolvePath": true, "join": true, "loadSingleElementFromURI": true,
-	"loadFromURIInternal": true, "loadFromDataWithPathInternal": true, "visitRef": true, "unvisitRef": true, "shouldVisitRef": true, "resetVisitedPathItemRefs": true}
+	"loadFromURIInternal": true, "loadFromDataWithPathInternal": true, "visitRef": true, "unvisitRef": true, "shouldVisitRef": true, "resetVisitedPathItemRefs": true, "readURL": true}
 
 func rsIsResolverName(n string) bool {
 	if rsFrozenText[n] || rsFrozenHash[n] {
